@@ -14,7 +14,7 @@ theorem mem_swapRemove_sub {l : List Nat} {pos x : Nat} (h : x ∈ swapRemove l 
   | some last =>
     rw [hl] at h
     simp only at h
-    have hx := List.mem_of_mem_dropLast h
+    have hx := List.dropLast_subset _ h
     have hlast : last ∈ l := List.mem_of_getLast? hl
     rcases List.mem_or_eq_of_mem_set hx with h1 | h1
     · exact h1
@@ -27,7 +27,7 @@ theorem mem_swapRemove_of_ne {l : List Nat} {pos x : Nat} (hpos : pos < l.length
   have hne0 : l ≠ [] := by intro e; subst e; simp at hpos
   obtain ⟨init, last, rfl⟩ : ∃ init last, l = init ++ [last] := by
     refine ⟨l.dropLast, l.getLast hne0, ?_⟩
-    exact (List.dropLast_append_getLast hne0).symm
+    exact (List.dropLast_concat_getLast hne0).symm
   simp only [List.getLast?_append, List.getLast?_singleton, Option.some_or]
   simp only [List.length_append, List.length_singleton] at hpos
   by_cases hp : pos = init.length
@@ -48,7 +48,8 @@ theorem mem_swapRemove_of_ne {l : List Nat} {pos x : Nat} (hpos : pos < l.length
       have hkp : k ≠ pos := by
         intro e; subst e
         apply hne
-        simp [List.getD_eq_getElem?_getD, List.getElem?_append_left hlt, hxk]
+        rw [getD_append_lt _ _ _ _ hk]
+        simp [List.getD_eq_getElem?_getD, List.getElem?_eq_getElem hk, hxk]
       apply List.mem_iff_getElem.2
       refine ⟨k, by simpa using hk, ?_⟩
       rw [List.getElem_set_ne (fun e => hkp e.symm)]; exact hxk
@@ -131,7 +132,8 @@ theorem removeAttack_spec {s : Store} (hinv : s.Inv) (la lb : Nat) :
         cases ht : findPos (row s.to_ b) (fun i => i == (row s.from_ a).getD pf 0) with
         | none =>
           have := findPos_none ht k (hinv.in_to k a b hk)
-          simp [hkid] at this
+          rw [hkid] at this
+          simp at this
         | some pt =>
           obtain ⟨hpt, hptp⟩ := findPos_spec ht
           simp only [beq_iff_eq] at hptp
